@@ -80,8 +80,10 @@ CHECKS = {
         'sections hold elements only and whose registered style names do not clash, loading the four rendered parts gives the document '
         'with every tree normalised as a parser normalises it, the generator replaced by exactly one naming the library, and the '
         'automatic styles that content.xml and styles.xml carry (the referenced ones: C10); attaching a clash-free subtree is the '
-        'identity at any depth (induction over trees). PARTIAL: the equality of the second-generation package is checked by the oracle, '
-        'not proved; pictures and sub-documents are C03/C16 theorems plus the oracle here. Tied by correspondence of the extracted '
+        'identity at any depth (induction over trees). Second generation: for a document that is already canonical and whose two parts '
+        'use automatic styles of different names, the loaded document is the original with normalised metadata and the used automatic '
+        'styles, and saving it yields the four parts of the first package byte for byte (the style selection is proved to compute exactly '
+        'the closure of the references, so selecting again selects the same). Pictures and sub-documents: C03/C16 theorems plus the oracle. Tied by correspondence of the extracted '
         'xml_parse + load_doc on the parts of really saved packages with the really loaded document, section by section.',
    note='Axioms: none. Attribute values are taken as fixed points of the converters (C15).',
    tech='Coq proof (composition of renderer, parser round trip and loader models; induction over trees) + correspondence',
